@@ -121,6 +121,62 @@ def task_big_orders(arg):
         out.outcome(("long-table", name, ok))
     return out.dump()
 
+ID_LABELS = [720, 730, 710, 1905, 15, 400, 99, 100, 101, 5000, 31, 64]  # survey-style unit numbers: large, not in ascending order
+
+
+def task_supplied_ids(arg):
+    """A derived unit id supplied as a data column with survey-style labels (large, unordered), in every order of the household blocks,
+    rotations and the reversed order: results keyed by p_id must not depend on the row order."""
+    date_iso, label, rows, id_col = arg
+    out = Partial()
+    df = popgen.frame(rows)
+    try:
+        first = sim.sim(df, date_iso, targets=[id_col])
+    except Exception as e:  # noqa: BLE001
+        if sim.known_crash(date_iso, e):
+            out.count("sims_skipped_known_C08_crash")
+        else:
+            out.violation(f"simulation-raises:{type(e).__name__}", {"date": date_iso, "population": label}, repr(e)[:300])
+        return out.dump()
+    ids = first[id_col].tolist()
+    uniq = list(dict.fromkeys(ids))
+    if len(uniq) > len(ID_LABELS):
+        return out.dump()
+    relabel = dict(zip(uniq, ID_LABELS))
+    df[id_col] = np.array([relabel[x] for x in ids], dtype=np.int64)
+    keys = df["p_id"].tolist()
+    try:
+        base = sim.sim_all(df, date_iso)
+    except Exception as e:  # noqa: BLE001
+        if sim.known_crash(date_iso, e):
+            out.count("sims_skipped_known_C08_crash")
+        else:
+            out.violation(f"simulation-raises:{type(e).__name__}", {"date": date_iso, "population": label, "supplied_id": id_col}, repr(e)[:300])
+        return out.dump()
+    n = len(df)
+    hh = df["hh_id"].tolist()
+    blocks = [[i for i in range(n) if hh[i] == h] for h in dict.fromkeys(hh)]
+    orders = set()
+    for bp in itertools.permutations(blocks):
+        orders.add(tuple(i for b in bp for i in b))
+        orders.add(tuple(i for b in bp for i in reversed(b)))
+    for k in range(1, n):
+        orders.add(tuple(range(k, n)) + tuple(range(k)))
+    orders.discard(tuple(range(n)))
+    out.state((date_iso, label, id_col))
+    for perm in sorted(orders):
+        d2 = df.iloc[list(perm)].reset_index(drop=True)
+        case = {"date": date_iso, "population": label, "rows": rows, "row_order": list(perm), "supplied_id": id_col, "what": f"{id_col} supplied as data"}
+        try:
+            got = sim.sim_all(d2, date_iso)
+        except Exception as e:  # noqa: BLE001
+            out.violation(f"permuted-simulation-raises:{type(e).__name__}", case, repr(e)[:300])
+            continue
+        out.step()
+        ok = compare(out, base, got, keys, d2["p_id"].tolist(), case, prefix=f"supplied-{id_col}:")
+        out.outcome((label, id_col, ok))
+    return out.dump()
+
 
 def task_index(arg):
     """Index labellings: values by position must not change; one output row per input row in input order."""
@@ -203,6 +259,10 @@ def task_ids_api(arg):
 
 
 def replay(case):
+    if "supplied_id" in case:
+        part = task_supplied_ids((case["date"], case["population"], case["rows"], case["supplied_id"]))
+        bad = [v for v in part["violations"] if v[1].get("row_order") == case.get("row_order")]
+        return not bad, "; ".join(v[2] for v in bad[:3])
     if "big_table_rows" in case:
         part = task_big_orders((case["date"], case["big_table_rows"]))
         bad = [v for v in part["violations"] if v[1].get("row_order") == case.get("row_order")]
@@ -269,6 +329,10 @@ def run(tier):
         rep.merge(part)
     big = [(d, n) for d in (dates[::5] if thorough else dates[-1:]) for n in ((1030, 2060, 4400) if thorough else (1030, 2060))]
     for part in harness.pmap(task_big_orders, big):
+        rep.merge(part)
+    sid = [(d, "+".join(c), popgen.combined(c, int(d[:4])), col) for d in (dates[::6] if thorough else dates[-1:]) for c in COMBOS + [["couple_kids", "patchwork", "single_parent"]]
+           for col in ("fg_id", "bg_id", "sn_id", "eg_id")]
+    for part in harness.pmap(task_supplied_ids, harness.rotate(sid)):
         rep.merge(part)
     itasks = [(d, label, rows) for d in (dates if thorough else dates[-1:]) for label, rows in base_sets(int(d[:4]))]
     for part in harness.pmap(task_index, harness.rotate(itasks)):
